@@ -15,6 +15,10 @@ func runFamily(fam string, w *bufio.Writer, r *rng, id, size int, opt string) bo
 		genResult(w, r, id, size)
 	case "redef":
 		genRedef(w, r, id)
+	case "conv":
+		genConv(w, r, id)
+	case "hist":
+		genHist(w, r, id)
 	case "call":
 		switch opt {
 		case "", "general":
